@@ -34,6 +34,9 @@ func VerifC10_FinalizeAcrossRevisions() {
 	for _, c := range fin.Calls {
 		rt.Assert(c.Finalizing, "finalizing/flag-not-set")
 	}
+	// C09: also while finalizing, the rollout intent stays on record - a child
+	// carrying the latest content is listed by the latest revision, by one only
+	r.consistent("finalizing", "2", true)
 	after := r.w.Srv.Peek(r.parentRes.Name, r.ns, "p")
 	removed := after == nil || !verifHasFinalizer(after, verifFinalizerName)
 	// a revision drained (and deleted) by this very sync no longer counts
